@@ -12,7 +12,7 @@ import os
 import re
 
 from vf.extract import extract_item, match_brace, ExtractError
-from vf.unit import Unit, _find_all, uniter_collect, drop_capacity_hints, unoption_pred
+from vf.unit import Unit, _find_all, uniter_collect, drop_capacity_hints, unoption_pred, unthen_some, unoption_and_then, uncollect_option_vec
 from units.openin import slice_loop_body, loop_if_present
 from units.fchain import unfor_zip
 
@@ -29,6 +29,8 @@ pub trait ExtX: FieldX {
     fn dimension() -> (r: usize) ensures r == sp_dimension::<Self>(), r < 0x1_0000;
     /// replaces the 3-line native construction `basis_coeffs = [0; D]; basis_coeffs[i] = 1; F::from_basis_coefficients_slice(&basis_coeffs).expect(..)`
     fn basis_element(i: usize) -> (r: Self) requires i < sp_dimension::<Self>() ensures r == sp_basis::<Self>(i as nat);
+    /// `==` of two field elements
+    fn feq(&self, o: &Self) -> (r: bool) ensures r == (*self == *o);
 }
 /// sum_{k < n} c_k * e_k in the order the ALU chain accumulates it:  acc_{k+1} = c_k * e_k + acc_k
 pub open spec fn packv<F: Field>(c: Seq<F>, n: int) -> F decreases n {
@@ -49,6 +51,15 @@ pub enum NonPrimitiveOpParams { Recompose, Other }
 pub struct ExtDecompositionHint { pub _p: () }
 impl ExtDecompositionHint { pub fn new() -> Self { ExtDecompositionHint { _p: () } } }
 
+/// `self.expr_builder.get_const_value(c)`: Some(v) only for a constant node, whose value is v (proved for the real ExpressionBuilder in unit expr)
+#[verifier::external_body]
+pub fn get_const_value<F: Field>(cb: &CircuitBuilder<F>, c: ExprId) -> (r: Option<F>) ensures r matches Some(v) ==> cb.val(c) == v { unimplemented!() }
+/// `<F as BasedVectorSpace<BF>>::as_basis_coefficients_slice(&v)[0]` as an embedded element: a base-field element, and v itself when v is one
+#[verifier::external_body]
+pub fn coeff0<F: Field>(v: &F) -> (r: F) ensures is_base(r), is_base(*v) ==> r == *v { unimplemented!() }
+/// `F::from_basis_coefficients_slice(&cs).expect(..)` on embedded base-field elements: their basis combination
+#[verifier::external_body]
+pub fn from_base_coeffs<F: Field>(cs: &Vec<F>) -> (r: F) ensures r == packv(cs@, cs@.len() as int) { unimplemented!() }
 impl<F: Field> CircuitBuilder<F> {
     #[verifier::external_body] pub fn push_scope(&mut self, s: &str) ensures *final(self) == *old(self) {}
     #[verifier::external_body] pub fn pop_scope(&mut self) ensures *final(self) == *old(self) {}
@@ -139,6 +150,51 @@ def build():
         ('frame', 'self.extends_pure(old(self)) && self.has(acc) && old(self).has_all(coeffs@) && cv == old(self).vals_of(coeffs@) && n == coeffs@.len() && n == sp_dimension::<F>()'),
         ('accumulated_prefix', 'self.val(acc) == packv(cv, i as int)'),
     ])
+
+    # ------------------------------------------------------------------ recompose_base_coeffs_to_ext_impl [const_fold]
+    # the all-constant fold that precedes the dispatch: its result must be the value the ALU chain (proved below) computes for the same coefficients
+    cf = u.extract(CB, IMPL, 'recompose_base_coeffs_to_ext_impl', 'CircuitBuilder::recompose_base_coeffs_to_ext_impl[const_fold]')
+    if not re.search(r'let bf_consts\b', cf.body) or not re.search(r'let result = if self\.recompose_npo_enabled', cf.body):
+        raise ExtractError('lost anchor in recompose_base_coeffs_to_ext_impl[const_fold]: `let bf_consts` .. `let result = if self.recompose_npo_enabled`')
+    st_, en_ = re.search(r'let bf_consts\b', cf.body).start(), re.search(r'let result = if self\.recompose_npo_enabled', cf.body).start()
+    cf.rewrites.append(('R13', f'function body := from `let bf_consts` up to `let result = if self.recompose_npo_enabled` ({st_} chars of prefix, {len(cf.body) - en_} chars of suffix dropped), then `Ok(None)` for "not folded"; the fold\'s `return Ok(result)` becomes `return Ok(Some(result))`',
+                        'prefix: dimension check; suffix: the dispatch (slice [dispatch])'))
+    cf.body = '{\n' + cf.body[st_:en_] + '\nOk(None)\n}'
+    cf.set_sig('R11', 'fn recompose_base_coeffs_to_ext_impl_const_fold<BF>(&mut self, coeffs: &[ExprId]) -> Result<Option<ExprId>, CircuitBuilderError>', sliced=True)
+    cf.rewrite_re('R13', r'return Ok\(result\);', 'return Ok(Some(result));', min_count=1)
+    # base-field values are represented by their embeddings (R11): BF -> F, F::from(x) -> x, as_basis_coefficients_slice(&v)[0] -> coeff0(&v), from_basis_coefficients_slice(&cs).expect(..) -> from_base_coeffs(&cs)
+    cf.rewrite_re('R11', r'Option<Vec<BF>>', 'Option<Vec<F>>', min_count=1)
+    cf.rewrite_re('R11', r'self\s*\.expr_builder\s*\.get_const_value\(c\)', 'get_const_value(self, c)', min_count=1)
+    cf.rewrite_re('R11', r'<F as BasedVectorSpace<BF>>::as_basis_coefficients_slice\(&(\w+)\)\[0\]', r'coeff0(&\1)', min_count=1)
+    cf.rewrite_re('R11', r'\(F::from\((\w+)\) == (\w+)\)', r'(\1.feq(&\2))', min_count=0)
+    cf.rewrite_re('R11', r'\bF::from\((\w+)\)', r'\1', min_count=0)
+    cf.rewrite_re('R11', r'F::from_basis_coefficients_slice\(&(\w+)\)\s*\.expect\("[^"]*"\)', r'from_base_coeffs(&\1)', min_count=1)
+    unthen_some(cf)
+    unoption_and_then(cf)
+    # `get_const_value(self, c).map(|ef| E)` (the form without the base-field test)
+    mm_ = re.search(r'get_const_value\(self, c\)\s*\.\s*map(\()', cf.body)
+    if mm_:
+        cl_ = match_brace(cf.body, mm_.start(1))
+        mi_ = re.match(r'\s*\|\s*(\w+)\s*\|\s*(.*)$', cf.body[mm_.start(1) + 1:cl_], flags=re.S)
+        if not mi_:
+            raise ExtractError('recompose_base_coeffs_to_ext_impl[const_fold]: Option::map closure outside the normaliser')
+        cf.body = cf.body[:mm_.start()] + f'(match get_const_value(self, c) {{ Some({mi_.group(1)}) => Some({mi_.group(2).strip().rstrip(",").strip()}), None => None }})' + cf.body[cl_ + 1:]
+        cf.rewrites.append(('R6', '`opt.map(|x| E)` -> match (E verbatim)', ''))
+    uncollect_option_vec(cf)
+    cf.requires('allocated_one_coefficient_per_basis_element', 'old(self).has_all(coeffs@) && coeffs@.len() == sp_dimension::<F>()')
+    cf.ensures('frame', 'final(self).extends_pure(old(self)) && (ret matches Ok(Some(r)) ==> final(self).has(r))')
+    cf.ensures('a_folded_recomposition_is_the_basis_combination_of_the_coefficients_the_chain_computes',
+               'ret matches Ok(Some(r)) ==> final(self).val(r) == packv(old(self).vals_of(coeffs@), coeffs@.len() as int)')
+    LCF = 'for bf_consts_k_ in 0..coeffs.len()'
+    if LCF in cf.body:
+        cf.loop(LCF, invariant_except_break=[
+            ('values_so_far_are_the_constants_themselves', 'bf_consts_ok_ && bf_consts_v_@.len() == bf_consts_k_ && forall|j: int| 0 <= j < bf_consts_k_ ==> #[trigger] bf_consts_v_@[j] == self.val(coeffs@[j])'),
+        ], ensures=[
+            ('all_values_are_the_constants_themselves', 'bf_consts_ok_ ==> bf_consts_v_@.len() == coeffs@.len() && forall|j: int| 0 <= j < coeffs@.len() ==> #[trigger] bf_consts_v_@[j] == self.val(coeffs@[j])'),
+        ], invariants=[('ctx', '*self == *old(self) && old(self).has_all(coeffs@)')])
+        cf.rewrite_re('SPEC', r'(let folded\s*=\s*from_base_coeffs\(&bf_values\);)', r'''\1 proof {
+            assert(bf_values@ =~= old(self).vals_of(coeffs@));
+        }''')
 
     # ------------------------------------------------------------------ decompose_ext_to_base_coeffs [hint path]
     de = u.extract(CB, IMPL, 'decompose_ext_to_base_coeffs', 'CircuitBuilder::decompose_ext_to_base_coeffs[hint_path]')
@@ -309,6 +365,7 @@ pub fn expr_kind_is<F: Field>(cb: &CircuitBuilder<F>, x: ExprId, k: ExprKind) ->
     u.text('verus! {\nimpl<F: ExtX> CircuitBuilder<F> {')
     u.emit(rv, vis='pub')
     u.emit(ri, vis='pub')
+    u.emit(cf, vis='pub')
     u.emit(de, vis='pub')
     u.emit(ds, vis='pub')
     u.text('}\n}')
